@@ -464,3 +464,16 @@ def report(prop: str, tier: str, seed: int, mod: Any, obs: list[Ob], results: di
     if undecided:
         return EXIT_UNDECIDED
     return EXIT_OK
+
+
+def shape_verdict(backend: str, problems: list[str], probe, count: int, replay: dict | None = None) -> "Outcome":
+    """Verdict of a contract that is keyed to the SHAPE of the source when that shape is not found:
+    run the concrete probe `probe() -> (failed, text)` on the real code. Probe fails => refuted with that evidence.
+    Probe passes => undecided (a correct refactor must never raise an alarm; the bounded tier still decides)."""
+    try:
+        failed, text = probe()
+    except Exception as e:  # noqa: BLE001
+        return Outcome.undecided(backend, "; ".join(problems[:3]) + f"; probe could not run: {type(e).__name__}: {e}")
+    if not failed:
+        return Outcome.undecided(backend, "source shape not recognised by this contract: " + "; ".join(p[:140] for p in problems[:3]) + f"; probe: {text[:200]}")
+    return Outcome.refuted(backend, [Witness(what=f"{p} — {text[:400]}", key=p[:60], input=p, replay=replay, confirmed=True) for p in problems], count=count)
